@@ -169,6 +169,11 @@ def _collect_inline_segments(
     elif isinstance(element, inline.InlineHTML):
         assert isinstance(element.children, str)
         segments.append((element.children, None))
+    elif isinstance(element, inline.AutoLink):
+        # <http://...> and bare GFM URLs (a subclass): the text is the URL itself, context only.
+        for child in element.children:
+            if isinstance(child.children, str):
+                segments.append((child.children, None))
     elif hasattr(element, "children") and isinstance(element.children, list):  # pyright: ignore
         # Recursive container (Emphasis, StrongEmphasis, Link, Strikethrough, etc.)
         children: list[Element] = element.children  # pyright: ignore
